@@ -359,7 +359,11 @@ func notSharedSyntax(toks []*token.Token) string {
 					return "static-member-chain"
 				}
 			}
-		case t.ID == token.T_OBJECT_OPERATOR && (next(1) == token.ID('$') || next(1) == token.T_VARIABLE || next(1) == token.ID('{')):
+		case t.ID == token.T_OBJECT_OPERATOR && next(1) == token.ID('$'):
+			return "dynamic-member-name"
+		case t.ID == token.T_OBJECT_OPERATOR && next(1) == token.T_VARIABLE && (next(2) == token.ID('[') || next(2) == token.ID('{')):
+			// "$a->$b['c']": PHP 5 reads $a->{$b['c']}, PHP 7 ($a->$b)['c']. A member name in
+			// braces ("$a->{'b'}[0]") and a plain "$a->$b" / "$a->$b()" mean the same in both
 			return "dynamic-member-name"
 		case t.ID == token.T_NEW:
 			for k := 1; i+k < len(toks) && k < 12; k++ {
